@@ -320,3 +320,17 @@ class Outcome:
         print(f"{self.prop} {self.tier}: obligations {n_ok}/{n_obl}, evaluations {self.evaluations}, "
               f"distinct {len(self.distinct)}, violations {len(seen)}, known {len(hit)}, {ev['wall_s']}s")
         return rc
+
+
+def ident_vocab():
+    """words a rename or name-resolution routine could treat specially: Python keywords and soft keywords, a few builtins and
+    conventional names (lowercase alphabetic, at least two letters -- the word shape of the snake_case convention)"""
+    import keyword
+    ws = [w.lower() for w in list(keyword.kwlist) + list(getattr(keyword, 'softkwlist', []))]
+    ws += ['type', 'id', 'list', 'dict', 'set', 'str', 'int', 'len', 'map', 'self', 'cls', 'init', 'name', 'value', 'field', 'fields', 'data',
+           'get', 'items', 'keys', 'copy', 'tag', 'kind']
+    out = []
+    for w in ws:
+        if w.isalpha() and w.isascii() and len(w) >= 2 and w not in out:
+            out.append(w)
+    return out
